@@ -809,6 +809,75 @@ def oracle_C12(inp, meta=None):
     return False, f"S % v = {R!r} is usable and idempotent"
 
 
+def denotes_native(x, w) -> bool:
+    """C14: w is the same plain value as x (bool/int identification and float tolerance aside)"""
+    if x is None:
+        return w is None
+    if isinstance(x, bool):
+        return isinstance(w, bool) and w == x
+    if isinstance(x, int):
+        return isinstance(w, int) and w == x
+    if isinstance(x, float):
+        return isinstance(w, float) and math.isclose(w, x)
+    if isinstance(x, str):
+        return isinstance(w, str) and w == x
+    if isinstance(x, list):
+        return isinstance(w, list) and len(w) == len(x) and all(denotes_native(a, b) for a, b in zip(x, w))
+    if isinstance(x, dict):
+        return isinstance(w, dict) and set(w) == set(x) and all(denotes_native(x[k], w[k]) for k in x)
+    if isinstance(x, bytes):
+        return isinstance(w, bytes) and w == x
+    if isinstance(x, _uuid.UUID):
+        return isinstance(w, _uuid.UUID) and w.version == 4 and w == x
+    if isinstance(x, _dt.datetime):
+        return isinstance(w, _dt.datetime) and w == x
+    if isinstance(x, _dt.date):
+        return isinstance(w, _dt.date) and w == x
+    return False
+
+
+def is_plain(x) -> bool:
+    if x is None or isinstance(x, (bool, int, float, str, bytes, _dt.date)):
+        return True
+    if isinstance(x, _uuid.UUID):
+        return x.version == 4
+    if isinstance(x, list):
+        return all(is_plain(i) for i in x)
+    if isinstance(x, dict):
+        return all((k is not ...) and not isinstance(k, optional) and is_plain(v) for k, v in x.items())
+    return False
+
+
+def oracle_C14(inp, meta=None):
+    from d42.utils import from_native
+    x = build(inp["value"])
+    try:
+        R = from_native(x)
+    except ValueError:
+        if is_plain(x):
+            return True, f"from_native({x!r}) refused a plain value"
+        return False, "refused with ValueError"
+    except Exception as e:
+        if is_plain(x):
+            return True, f"from_native({x!r}) raised {e!r}"
+        return False, f"outside the plain-value domain: {e!r}"
+    if not is_plain(x):
+        if isinstance(x, (tuple, set, frozenset, bytearray, complex)) or type(x).__name__ in ("Opaque", "Decimal", "Fraction"):
+            return True, f"from_native({x!r}) accepted a non-plain kind: {R!r}"
+        return False, "outside the plain-value domain"
+    if validate(R, x).has_errors():
+        return True, f"from_native({x!r}) = {R!r} rejects the value itself: {validate(R, x).get_errors()}"
+    for name, g in _samples(R):
+        if isinstance(g, Exception) or not denotes_native(x, g):
+            return True, f"fake(from_native({x!r})) gave {g!r} [{name}]"
+    if "w" in inp:
+        w = build(inp["w"])
+        if (not validate(R, w).has_errors()) != denotes_native(x, w):
+            return True, f"from_native({x!r}) accepts {w!r}: {not validate(R, w).has_errors()}, expected {denotes_native(x, w)}"
+    return False, f"from_native({x!r}) = {R!r} denotes the value"
+
+
+ORACLES.update({"C14": oracle_C14})
 ORACLES.update({"C10": oracle_C10, "C11": oracle_C11, "C01": oracle_C01, "C04": oracle_C04,
                 "C05": oracle_C05, "C12": oracle_C12})
 
